@@ -632,6 +632,10 @@ func (c *FnCtx) makeInterface(st *State, v Val, it types.Type) Val {
 		st.assume(eq("("+ub+" "+t+")", v.S))
 		st.assume(eq("(dyntype "+t+")", tid))
 		st.assume("(> " + t + " 0)")
+		if c.boxed == nil {
+			c.boxed = map[string]Val{}
+		}
+		c.boxed[t] = v
 		return Val{T: it, K: KIface, S: t}
 	}
 	// composite: box through a fresh cell holding the value
